@@ -11,7 +11,7 @@ LEVEL = "translation_validation"
 ITEM_CAP = {"quick": 60, "thorough": 120}
 FUNCS = ["qlasskit.qlassfun.qlassf -> UnboundQlassf", "qlasskit.qlassfun.UnboundQlassf.bind", "qlasskit.qlassfun.is_parameter_annotation",
          "qlasskit.ast2ast.astrewriter.ASTRewriter.visit_Assign / constantfolder.ConstantFolder (propagation of the injected assignments)"]
-BOUNDS = "37 parameterised programs (bool, Qint[2..4], Qlist, Tuple parameters; 1-3 parameters; first/last/interleaved) x ALL parameter values of the declared types x keyword orders x bind histories {v; v,v',v} on one unbound object; remaining arguments symbolic; both optimizer profiles"
+BOUNDS = "generated family param-rand (120 quick / 400 thorough programs with 1-2 parameters of bool/Qint/Tuple/Qlist/Qmatrix type, two drawn value assignments, histories [v] and [v,w,v]) + 37 parameterised programs (bool, Qint[2..4], Qlist, Tuple parameters; 1-3 parameters; first/last/interleaved) x ALL parameter values of the declared types x keyword orders x bind histories {v; v,v',v} on one unbound object; remaining arguments symbolic; both optimizer profiles"
 OUTSIDE = "program texts enumerated; parameter values enumerated exhaustively (they are compile-time python values, not solver variables)"
 ASSUMPTIONS = ["reference meaning of a bound function = RefSem of the unbound source with the parameters replaced by constant assignments",
                "'unbound object unchanged' is a frame condition: ast.dump(fun_ast), parameters dict compared before/after each bind"]
@@ -101,11 +101,25 @@ def universe():
     return out
 
 
+def random_family(tier):
+    from .. import corpus2
+
+    out = []
+    for it in corpus2.u_param2(400 if tier == "thorough" else 120):
+        for opt in ("default", "fast"):
+            out.append({"fam": "param-rand", "src": it["src"], "hist": [it["v"]], "korder": "fwd", "opt": opt, "may_reject": True})
+            if it["v"] != it["w"]:
+                out.append({"fam": "param-rand", "src": it["src"], "hist": [it["v"], it["w"], it["v"]], "korder": "rev" if len(it["v"]) > 1 else "fwd", "opt": opt, "may_reject": True})
+    return out
+
+
 def make_items(tier, seed):
     u = universe()
+    rf = random_family(tier)
     if tier == "thorough":
-        return u
-    core = [sp for i, sp in enumerate(u) if sp["fam"] == "param-history" and i % 2 == 0] + [sp for i, sp in enumerate(u) if sp["fam"] == "param" and i % 5 == 0]
+        return u + rf
+    u = rf[:120] + u + rf[120:]
+    core = rf[:120] + [sp for i, sp in enumerate(u) if sp["fam"] == "param-history" and i % 2 == 0] + [sp for i, sp in enumerate(u) if sp["fam"] == "param" and i % 5 == 0]
     rest = [sp for sp in u if sp not in core]
     return slice_quick(core + rest, seed, len(core), 150)
 
@@ -139,7 +153,7 @@ def check_item(spec):
         try:
             qf = u.bind(**kw)
         except Exception as e:
-            if any(x in spec["src"] for x in EXPECT_REJECT):
+            if spec.get("may_reject") or any(x in spec["src"] for x in EXPECT_REJECT):
                 res.update(cls="lib-reject", note="bind: %s: %s" % (type(e).__name__, str(e)[:80]))
             else:
                 res["findings"].append({"kind": "bind-raises", "what": "bind(%s) raises %s: %s" % (kw, type(e).__name__, str(e)[:100]), "cex": {}, "replayed": True})
